@@ -25,6 +25,7 @@ From Perf Require Import Proofs.UDistRev Proofs.UDistDP Proofs.UTestUntied Proof
 From Perf Require Import Proofs.UDistUntiedEval.
 From Perf Require Import Proofs.UDistSpecFull Proofs.UDistSpecJudge.
 From Perf Require Import Model.UTestHist Proofs.UTestHist Proofs.UTestHistJudge.
+From Perf Require Import Model.UApproxSpec Proofs.UApproxSpec.
 From Coq Require Import Sorting.Permutation.
 From Perf Require Corr.RunC11.
 Import ListNotations.
@@ -694,3 +695,86 @@ Proof.
   - repeat constructor; lia.
   - lia.
 Qed.
+
+(** ** audit round (f11) *)
+
+(** UDist.PMF without ties (after hooks/fix_c11_udist_pmf_untied_grid.diff) at EVERY argument
+    x = q/4: the mass at x rounded down to the grid of half-integers (0 at a half-integer) *)
+Theorem C11_pmf_untied_exact_grid : forall t n1 n2 q, has_ties t = false -> 0 <= n1 -> 0 <= n2 ->
+  frac_eq (pmf n1 n2 t q) (count_eq (ones (n1 + n2)) n1 (q / 2)) (total (ones (n1 + n2)) n1).
+Proof. exact pmf_untied_exact_grid. Qed.
+Print Assumptions C11_pmf_untied_exact_grid.
+
+(** the upper tail is the lower tail of the mirrored distribution (tie vector reversed):
+    what the repaired Greater branch (hooks/fix_c11_utest_greater_mirror.diff) sums *)
+Theorem C11_upper_tail_is_mirrored_lower_tail : forall t n u, Forall (fun x => 0 <= x) t ->
+  count_le (rev t) n (2 * (n * (zsum t - n)) - u) = count_ge t n u.
+Proof. exact count_le_rev. Qed.
+Print Assumptions C11_upper_tail_is_mirrored_lower_tail.
+
+(** the old Greater value 1 - CDF(U1 - 1/2) and the repaired one are the same FRACTION; the
+    repair only changes how the floats are formed *)
+Example C11_greater_mirror_example :
+  pexact_frac (exact_p (ustat_of [1; 2] [1; 3; 0]) Greater) = Some (5, 10) /\
+  us_twoU1 (ustat_of [1; 2] [1; 3; 0]) = 7 /\ count_ge [1; 2; 1; 1] 2 7 = 5 /\ total [1; 2; 1; 1] 2 = 10.
+Proof. vm_compute. repeat split. Qed.
+
+(** known finding C11_twosided_asymmetric_ties: the relaxed judge [known_ok_u] accepts
+    whatever [prop_ok_u] accepts, and is EQUAL to it outside the finding's input class *)
+Theorem C11_known_ok_weaker : forall c, Perf.Corr.RunC11.prop_ok_u c = true -> Perf.Corr.RunC11.known_ok_u c = true.
+Proof. exact known_ok_u_weaker. Qed.
+Print Assumptions C11_known_ok_weaker.
+Theorem C11_known_ok_same_outside_finding : forall c,
+  let t := pool_T (Perf.Corr.RunC11.u_x1 c) (Perf.Corr.RunC11.u_x2 c) in
+  (Perf.Corr.RunC11.u_alt c <> Differs /\ Perf.Corr.RunC11.u_legacy c = Perf.Corr.RunC11.LNone)
+  \/ has_ties t = false \/ Perf.Corr.RunC11.palindrome t = true
+  \/ Perf.Corr.RunC11.exact_regime t (zlen (Perf.Corr.RunC11.u_x1 c)) (zlen (Perf.Corr.RunC11.u_x2 c)) = false ->
+  Perf.Corr.RunC11.known_ok_u c = Perf.Corr.RunC11.prop_ok_u c.
+Proof. exact known_ok_u_same. Qed.
+Print Assumptions C11_known_ok_same_outside_finding.
+
+(** the finding on its witness, through the judges: {1,2} vs {0,1,3}, two-sided; the code
+    returns 0.8 (exact value 1): refused by [prop_ok_u], accepted by [known_ok_u]; any other
+    value (0.7) and a wrong statistic are refused by both *)
+Example C11_known_ok_on_witness :
+  let mk U P := Perf.Corr.RunC11.mkU [1; 2] [0; 1; 3] Differs (50, 25)
+                  (Perf.Corr.RunC11.ONum 2 3 (Perf.Base.B64.b64_of_bits U) (Perf.Base.B64.b64_of_bits P) 0)
+                  Perf.Corr.RunC11.LNone [] in
+  let u35 := 4615063718147915776 in     (* 3.5 *)
+  let p08 := 4605380978949069210 in     (* 0.8 *)
+  let p07 := 4604480259023595110 in     (* 0.7 *)
+  let one := 4607182418800017408 in     (* 1.0 *)
+  Perf.Corr.RunC11.prop_ok_u (mk u35 p08) = false /\ Perf.Corr.RunC11.known_ok_u (mk u35 p08) = true /\
+  Perf.Corr.RunC11.prop_ok_u (mk u35 one) = true /\
+  Perf.Corr.RunC11.known_ok_u (mk u35 p07) = false /\
+  Perf.Corr.RunC11.known_ok_u (mk one p08) = false.
+Proof. vm_compute. repeat split. Qed.
+
+(** ** the normal approximation, declaratively (Model/UApproxSpec.v) *)
+Theorem C11_approx_variance_positive : forall n1 n2 t,
+  Forall (fun x => 1 <= x) t -> (2 <= length t)%nat -> zsum t = n1 + n2 -> 1 <= n1 -> 1 <= n2 ->
+  0 < var_num n1 n2 t /\ 0 < var_den n1 n2.
+Proof. exact approx_variance_positive. Qed.
+Print Assumptions C11_approx_variance_positive.
+Theorem C11_approx_p_in_unit : forall a en ed, 0 < ed -> 0 <= en <= 2 * ed ->
+  let '(num, den) := approx_spec_p a en ed in 0 <= num <= den /\ 0 < den.
+Proof. exact approx_spec_p_in_unit. Qed.
+Theorem C11_approx_two_sided_swap_argument : forall n1 n2 t twoU xn xd,
+  arg_ok n2 n1 t (2 * (n1 * n2) - twoU) Differs (- xn) xd = arg_ok n1 n2 t twoU Differs xn xd.
+Proof. exact approx_arg_swap. Qed.
+Theorem C11_approx_two_sided_swap_value : forall en ed,
+  approx_spec_p Differs (2 * ed - en) ed = approx_spec_p Differs en ed.
+Proof. exact approx_two_sided_swap. Qed.
+Print Assumptions C11_approx_two_sided_swap_argument.
+
+(** a recorded case of the approximate regime (26 + 25 values, two runs, Less): the observed
+    p-value is accepted for its own alternative and refused for the other one-sided one *)
+Example C11_approx_judge_example :
+  let x1 := [0;10;10;10;0;10;10;10;10;10;0;10;0;0;10;10;10;0;0;0;0;0;0;10;10;10] in
+  let x2 := [10;0;0;10;0;10;10;10;10;10;0;0;10;0;10;0;10;10;10;0;10;0;0;10;10] in
+  let orc := [(4592546682259934216, 4606075064875024567)] in
+  let P := Perf.Base.B64.b64_of_bits 4601571465247654071 in
+  Perf.Corr.RunC11.approx_p_ok orc (pool_T x1 x2) 26 25 (twoU_pairs x1 x2) Less P = true /\
+  Perf.Corr.RunC11.approx_p_ok orc (pool_T x1 x2) 26 25 (twoU_pairs x1 x2) Greater P = false /\
+  Perf.Corr.RunC11.approx_p_ok [] (pool_T x1 x2) 26 25 (twoU_pairs x1 x2) Less P = false.
+Proof. vm_compute. repeat split. Qed.
